@@ -217,7 +217,7 @@ def main(tier):
     if tier == "quick":
         pb += universe.one_dev(corpus.small_slice(max_lines=25), KB)
     else:
-        pb += universe.one_dev(corpus.small_slice(), KB) + universe.one_dev(corpus.seed_ids(("fix", "cls")), ("NL", "WT", "CE", "WFF", "TW", "J")) + universe.one_dev(corpus.seed_ids(("gen",)), ("WT", "TW", "J"))
+        pb += universe.one_dev(corpus.small_slice(), KB) + universe.one_dev(corpus.seed_ids(("fix", "cls")), ("NL", "CE", "J")) + universe.one_dev(corpus.seed_ids(("gen",)), ("WT", "TW", "J"))
     for sid in [s for s in corpus.small_slice(max_lines=25) if s.startswith("fix/")][:: (6 if tier == "quick" else 1)]:
         for ch in ("\x0c", "\x0b", "\x1c", "\x1d", "\x1e", "\x85", "\u2028", "\u2029"):
             pb.append(dict(universe.mk(sid), ctrl=ch, id=f"{sid}#ctrl{ord(ch):x}"))
